@@ -348,6 +348,26 @@ def globalstate(prog, an):
                     out.append((m, n, f"'{stmt_text(n, 70)}' fills '{base.attr}', a container declared in the body of "
                                       f"class {c.name} ('{stmt_text(shared[base.attr], 50)}'): it is shared by all "
                                       f"instances and survives from one call to the next (a process-wide cache)"))
+        # ... and the same container filled from OUTSIDE the class through an instance: `self.compiler.included.add(x)`
+        for g in prog.all_funcs():
+            if g.module.generated or (g.cls is not None and g.cls.name == c.name):
+                continue
+            for n in own_nodes(g.node):
+                base = None
+                if isinstance(n, ast.Assign) and len(n.targets) == 1 and isinstance(n.targets[0], ast.Subscript):
+                    base = n.targets[0].value
+                elif isinstance(n, ast.Call) and isinstance(n.func, ast.Attribute) and \
+                        n.func.attr in (ADDERS | {'update', 'setdefault', 'extend'}):
+                    base = n.func.value
+                if isinstance(base, ast.Attribute) and base.attr in shared and base.attr not in own \
+                        and isinstance(base.value, (ast.Attribute, ast.Name)):
+                    t_ = prog.env(g).type_of(base.value)
+                    named_like = isinstance(base.value, ast.Attribute) and base.value.attr.lower() in c.name.lower()
+                    if (t_[0] == 'cls' and t_[1] == c.name) or (t_[0] != 'cls' and named_like):
+                        out.append((g, n, f"'{stmt_text(n, 70)}' fills '{base.attr}', a container declared in the body of "
+                                          f"class {c.name} ('{stmt_text(shared[base.attr], 50)}') and never given to the "
+                                          f"instance in __init__: one object for every {c.name} of the process - what one "
+                                          f"compilation / call records, all later ones see"))
     return out
 
 
